@@ -53,3 +53,37 @@ __CPROVER_ensures(hm_swap_post())
 __CPROVER_assigns(__CPROVER_object_whole(a); __CPROVER_object_whole(b);
                   gv_a_last != 0: HI(gv_a_last)->next; gv_b_last != 0: HI(gv_b_last)->next)
 ;
+/* removeFront / removeBack: remove() receives the table's own _begin iterator / the sentinel's predecessor */
+void* w_HashMap_removeFront(void* m)
+__CPROVER_ensures(hm_remove_post(__CPROVER_return_value))
+__CPROVER_assigns(__CPROVER_object_whole(m); __CPROVER_object_whole(HM(m)->_begin); HI(gv_N)->prev;
+                  *(struct HItem_L**)gv_C;
+                  gv_NC != 0: HI(gv_NC)->cell)
+;
+void* w_HashMap_removeBack(void* m)
+__CPROVER_ensures(hm_remove_post(__CPROVER_return_value))
+__CPROVER_assigns(__CPROVER_object_whole(m); __CPROVER_object_whole(HM(m)->endItem.prev);
+                  *(struct HItem_L**)gv_C;
+                  gv_NC != 0: HI(gv_NC)->cell;
+                  gv_Q != 0: HI(gv_Q)->next)
+;
+/* PoolMap::remove(const V&): the node is computed from the element address (value at offset 0 of the item) */
+void w_PoolMap_removeValue(void* m, void* item)
+__CPROVER_ensures(hm_remove_post(gv_N))
+__CPROVER_assigns(__CPROVER_object_whole(m); __CPROVER_object_whole(item); HI(gv_N)->prev;
+                  *(struct HItem_L**)gv_C;
+                  gv_NC != 0: HI(gv_NC)->cell;
+                  gv_Q != 0: HI(gv_Q)->next)
+;
+/* remove(key) */
+_Bool hm_removekey_post(void);
+void w_HashMap_removeKey(void* m, const long* key)
+__CPROVER_requires(__CPROVER_r_ok(key, sizeof(long)))
+__CPROVER_ensures(hm_removekey_post())
+__CPROVER_assigns(__CPROVER_object_whole(m);
+                  gv_hit != 0: __CPROVER_object_whole(gv_hit);
+                  gv_hit != 0: HI(gv_N)->prev;
+                  gv_hit != 0: *(struct HItem_L**)gv_C;
+                  gv_NC != 0: HI(gv_NC)->cell;
+                  gv_Q != 0: HI(gv_Q)->next)
+;
